@@ -176,25 +176,12 @@ func (c *Ctx) rulePerRecipientWrites(id string) {
 	if o == nil {
 		return
 	}
-	// the fan-out function: looks sessions up in a loop and reaches the arming functions (directly or through
-	// per-QoS helpers), is not itself arming
 	isArmCall := func(cl *core.Call) bool { return cl.Static != nil && o.arming[cl.Static] != nil }
-	var fan *ssa.Function
-	for _, f := range c.P.ModFuncs() {
-		if o.arming[f] != nil || f.Parent() != nil {
-			continue
-		}
-		inLoop := false
-		loops := core.Loops(f)
-		for _, g := range core.CallsTo(f, o.localGet) {
-			if core.InnermostLoop(loops, g.Instr.Block()) != nil {
-				inLoop = true
-			}
-		}
-		if inLoop && c.reaches(f, 2, isArmCall) {
-			fan = f
-		}
+	armOn := func(p *core.Path, cl *core.Call) *armSite {
+		t, _ := c.armTarget(o, p, cl)
+		return t
 	}
+	fan := c.fanOut(o)
 	if !ru.Anchor(fan != nil, "the fan-out function (looks sessions up and calls the arming functions)") {
 		return
 	}
@@ -251,10 +238,10 @@ func (c *Ctx) rulePerRecipientWrites(id string) {
 			switch {
 			case pc.Obj != nil && pc.Obj.Pkg() != nil && pc.Obj.Pkg().Path() == pkgEncoder:
 				writes++
-			case pc.Static != nil && o.arming[pc.Static] != nil:
+			case armOn(p, pc.Call) != nil:
 				arms++
-				tgt := o.arming[pc.Static]
-				if tgt.sessIdx >= 0 && !same(p.Resolve(pc.Common.Args[tgt.sessIdx]), g.Value()) {
+				tgt, off := c.armTarget(o, p, pc.Call)
+				if tgt.sessIdx-off >= 0 && !same(p.Resolve(pc.Common.Args[tgt.sessIdx-off]), g.Value()) {
 					bad = "the message is armed for a session other than the recipient looked up in this iteration"
 				}
 			case pc.Is(o.midGet) || (pc.Static != nil && pc.Static.Parent() == nil && o.arming[pc.Static] == nil && takesID(pc.Static)):
@@ -312,30 +299,31 @@ func (c *Ctx) rulePerRecipientWrites(id string) {
 	bad = ""
 	nArm := 0
 	for _, cl := range c.callsDeep(fan, 2) {
-		if cl.Static == nil || o.arming[cl.Static] == nil || o.arming[cl.Instr.Parent()] != nil || enclosingTop(cl.Instr.Parent()) != cl.Instr.Parent() {
+		tgt, off := c.armTarget(o, nil, cl)
+		if tgt == nil || o.arming[cl.Instr.Parent()] != nil || enclosingTop(cl.Instr.Parent()) != cl.Instr.Parent() {
 			continue
 		}
-		tgt := o.arming[cl.Static]
 		inLoop := false
 		for _, at := range c.liftTo(fan, cl.Instr) {
 			if loop.Blocks[at.Block()] {
 				inLoop = true
 			}
 		}
-		if tgt.pktIdx < 0 || !inLoop {
+		if tgt.pktIdx-off < 0 || !inLoop {
 			continue
 		}
 		nArm++
-		al, ok := deepStrip(cl.Common.Args[tgt.pktIdx]).(*ssa.Alloc)
-		if !ok || al.Parent() != fan {
-			bad = "the packet handed to " + c.fname(cl.Static) + " is not a packet built in the fan-out"
+		bo := c.builtObject(deepStrip(cl.Common.Args[tgt.pktIdx-off]))
+		if bo == nil || bo.site.Parent() != fan {
+			bad = "the packet handed to " + c.fname(tgt.fn) + " is not a packet built in the fan-out"
 			continue
 		}
-		if !loop.Blocks[al.Block()] {
+		al := bo.alloc
+		if !loop.Blocks[bo.site.Block()] {
 			bad = "the packet armed for each recipient is one object allocated before the recipient loop and rewritten per recipient: every in-flight entry and retransmission closure of the delivery ends up pointing at the last recipient's identifier, QoS and topic"
 		}
 		// parts of the packet reached through a pointer (its header) are per recipient too when they are written per recipient
-		if al.Referrers() != nil {
+		if al.Parent() == fan && al.Referrers() != nil {
 			for _, r := range *al.Referrers() {
 				fa, ok := r.(*ssa.FieldAddr)
 				if !ok || fa.Referrers() == nil {
@@ -696,30 +684,33 @@ func checkC07(c *Ctx) {
 	c.ruleRetainedWildcardParent("C07-R7")
 	// R4
 	ru4 := c.R.Rule("C07-R4", "the per-recipient outgoing packet copies Header.Retain from the source publish (a replayed retained message arrives flagged; a live copy arrives unflagged because the worker cleared the flag)", "E3 provenance", 1)
-	n := 0
-	for _, f := range c.P.ModFuncs() {
-		if f.Package() == nil || f.Package().Pkg.Path() != c.P.Rel("wasp") {
-			continue
-		}
-		for _, b := range f.Blocks {
-			for _, in := range b.Instrs {
-				st, ok := in.(*ssa.Store)
-				if !ok {
-					continue
+	if o := c.outbound(ru4); o != nil {
+		if fan := c.fanOut(o); ru4.Anchor(fan != nil, "the fan-out function") {
+			srcIdx := -1
+			for i, p := range fan.Params {
+				if isPublishPtr(p.Type()) {
+					srcIdx = i
 				}
-				fa, ok := st.Addr.(*ssa.FieldAddr)
-				if !ok || fieldNameOf(fa.X.Type(), fa.Field) != "Retain" || !isNamed(fa.X.Type(), pkgPacket, "Header") {
-					continue
+			}
+			for i, pk := range c.deliveryPackets(o, fan) {
+				c.R.Fn(c.fname(pk.alloc.Parent()))
+				key := fmt.Sprintf("outgoing retain flag #%d (packet built in %s)", i+1, c.fname(pk.alloc.Parent()))
+				hdr := c.sub(pk, "Header")
+				var rv ssa.Value
+				if hdr != nil {
+					rv = hdr.field("Retain")
 				}
-				if _, isLit := fa.X.(*ssa.Alloc); !isLit {
-					continue
+				ok := false
+				if rv != nil {
+					if fa, isF := isLoadOfField(rv, "Retain"); isF && isNamed(fa.X.Type(), pkgPacket, "Header") && srcIdx >= 0 && reachesParam(rv, fan, srcIdx) {
+						ok = true
+					}
 				}
-				if len(core.CallsTo(f, c.P.MethodObj("wasp/sessions", "Session", "Writer"))) == 0 {
-					continue
+				detail := "the outgoing copy does not take its retain flag from the source publish"
+				if rv != nil {
+					detail += ": " + short(core.Term(rv), 60)
 				}
-				n++
-				t := core.Term(st.Val)
-				ru4.Check(strings.HasSuffix(t, ".Retain") && strings.Contains(t, ".Header"), fmt.Sprintf("outgoing retain flag #%d in %s", n, c.fname(f)), c.whereI(st), "copied from the source publish", "the outgoing copy does not take its retain flag from the source publish: "+short(t, 60))
+				ru4.Check(ok, key, c.whereI(pk.site), "copied from the source publish", detail)
 			}
 		}
 	}
@@ -892,4 +883,64 @@ func (c *Ctx) ruleFreeListShrink(id string) {
 			}
 		}
 	}
+}
+
+
+// fanOut finds the fan-out function: it looks sessions up in the registry inside a loop and reaches the arming functions
+// (directly or through per-QoS helpers), and is not itself arming.
+func (c *Ctx) fanOut(o *outbound) *ssa.Function {
+	isArmCall := func(cl *core.Call) bool { return cl.Static != nil && o.arming[cl.Static] != nil }
+	var fan *ssa.Function
+	for _, f := range c.P.ModFuncs() {
+		if o.arming[f] != nil || f.Parent() != nil {
+			continue
+		}
+		inLoop := false
+		loops := core.Loops(f)
+		for _, g := range core.CallsTo(f, o.localGet) {
+			if core.InnermostLoop(loops, g.Instr.Block()) != nil {
+				inLoop = true
+			}
+		}
+		if inLoop && c.reaches(f, 2, isArmCall) {
+			fan = f
+		}
+	}
+	return fan
+}
+
+// deliveryPackets lists the per-recipient packets of the fan-out: what is handed to the arming functions and to the
+// encoder's direct PUBLISH write (in the fan-out or its per-QoS helpers), resolved to the literal that builds them.
+func (c *Ctx) deliveryPackets(o *outbound, fan *ssa.Function) []*builtObj {
+	var out []*builtObj
+	seen := map[*ssa.Alloc]bool{}
+	for _, cl := range c.callsDeep(fan, 2) {
+		if o.arming[cl.Instr.Parent()] != nil || enclosingTop(cl.Instr.Parent()) != cl.Instr.Parent() {
+			continue
+		}
+		var pv ssa.Value
+		switch {
+		case armIdx(c, o, cl) >= 0:
+			pv = cl.Common.Args[armIdx(c, o, cl)]
+		case cl.Obj != nil && cl.Obj.Pkg() != nil && cl.Obj.Pkg().Path() == pkgEncoder && cl.Obj.Name() == "Publish" && len(cl.Args()) == 2:
+			pv = cl.Args()[1]
+		default:
+			continue
+		}
+		if b := c.builtObject(deepStrip(pv)); b != nil && !seen[b.alloc] {
+			seen[b.alloc] = true
+			out = append(out, b)
+		}
+	}
+	return out
+}
+
+
+// armIdx: the index, among the call's arguments, of the packet handed to an arming function (-1 if cl is not an arming call).
+func armIdx(c *Ctx, o *outbound, cl *core.Call) int {
+	tgt, off := c.armTarget(o, nil, cl)
+	if tgt == nil || tgt.pktIdx-off < 0 || tgt.pktIdx-off >= len(cl.Common.Args) {
+		return -1
+	}
+	return tgt.pktIdx - off
 }
